@@ -497,7 +497,29 @@ def check_reader_loop(ctx, fn: FuncInfo, loop: ast.For, call: ast.Call) -> bool:
         ctx.bad('V3', key, where, f'reader loop iterates `{it}`, not the whole parameter dictionary')
         ok = False
     # guards between function entry and the call: only `len(X.InputParameters) > 0` and `key in X.InputParameters`
+    # a local bound exactly once to the input map (`entries = self.InputParameters`) is the input map
+    _binds = {}
+    for _st in ast.walk(fn.node):
+        if isinstance(_st, ast.Assign) and len(_st.targets) == 1 and isinstance(_st.targets[0], ast.Name):
+            _binds.setdefault(_st.targets[0].id, []).append(_st.value)
+    _stores = {}
+    for _x in ast.walk(fn.node):
+        if isinstance(_x, ast.Name) and isinstance(_x.ctx, ast.Store):
+            _stores[_x.id] = _stores.get(_x.id, 0) + 1
+    _alias = {k_: v_[0] for k_, v_ in _binds.items() if len(v_) == 1 and _stores.get(k_) == 1 and isinstance(v_[0], ast.Attribute)
+              and norm(v_[0]).endswith('.InputParameters')}
+
+    def _dealias(e):
+        if not _alias:
+            return e
+        from gxstat.srcmodel import clone as _clone
+
+        class _S(ast.NodeTransformer):
+            def visit_Name(self, n_):
+                return _clone(_alias[n_.id]) if n_.id in _alias and isinstance(n_.ctx, ast.Load) else n_
+        return ast.fix_missing_locations(_S().visit(_clone(e)))
     for test, pol in guards_of(call, fn.node):
+        test = _dealias(test)
         t = norm(test)
         fine = False
         ne = nonempty_subject(test, pol)
